@@ -2,6 +2,9 @@ import CifModel.Lemmas.ParseCBDupX
 import CifModel.Lemmas.ParseCBDupPlain
 import CifModel.Lemmas.ParseCBDupCut
 import CifModel.Lemmas.ParseCBDupSub
+import CifModel.Lemmas.ParseCBRecX
+import CifModel.Lemmas.ParseCBLayoutRec
+import CifModel.Props.C15Layout
 import CifModel.Props.C15
 import CifModel.Lemmas.ParseCBFuel
 /-
@@ -30,6 +33,33 @@ theorem C15_dup_structural_any (p : Prog) (norm : Str → Str) (storing : Bool) 
   obtain ⟨h1, h2, h3⟩ := docD_x p norm storing d (fuelFor (tokensOf d)) hw (fuelFor_enough d)
   unfold parseCBD
   rw [h1, h2, h3]
+
+/-- **The model the correspondence run executes is the model of the theorems.**  The `pcb` driver runs `parseCBR` (Model/ParseCBRec.lean:
+    `parseCBD` plus the recovery paths for truncated packets, empty / null loops, missing and unexpected values).  On the token sequence
+    of every WELL-FORMED document — with any duplicates, for every handler program, in both modes — no recovery path is taken:
+    `parseCBR = parseCBD` (both are the structural interpreter `xDocD`). -/
+theorem C15_rec_is_dup_on_wellformed (p : Prog) (norm : Str → Str) (storing : Bool) (d : Doc) (hw : wfDoc d = true) :
+    parseCBR p norm storing (tokensOf d) = parseCBD p norm storing (tokensOf d) := by
+  obtain ⟨h1, h2, h3⟩ := docR_x p norm storing d (fuelFor (tokensOf d)) hw (fuelFor_enough d)
+  rw [C15_dup_structural_any p norm storing d hw]
+  unfold parseCBR
+  rw [h1, h2, h3]
+
+/-- … and with ANY layout in front of the tokens (the requests of the correspondence run carry the layout of the rendered text): the
+    result, the stored CIF and the callbacks other than whitespace callbacks of `parseCBR` on the laid-out tokens are those of
+    `parseCBD` on `tokensOf d` — the object of `C15_dup_structural_any`, `C15_dup_stop_semantics_store`, `C15_dup_events_sublist` and,
+    on duplicate-free documents, of every theorem about `parseCB` -/
+theorem C15_rec_is_dup_on_wellformed_layout (p : Prog) (norm : Str → Str) (storing : Bool) (d : Doc) (hw : wfDoc d = true)
+    (toks : List Tok) (h : SkelL (tokensOf d) toks) :
+    (parseCBR p norm storing toks).2.1 = (parseCBD p norm storing (tokensOf d)).2.1
+    ∧ (parseCBR p norm storing toks).2.2 = (parseCBD p norm storing (tokensOf d)).2.2
+    ∧ C15_structOf (parseCBR p norm storing toks).1 = C15_structOf (parseCBD p norm storing (tokensOf d)).1 := by
+  have hf : fuelFor toks = fuelFor (tokensOf d) := by unfold fuelFor; rw [h.length]
+  obtain ⟨a, b, c⟩ := cifR_layout p norm 1 storing (fuelFor (tokensOf d)) h
+  rw [← C15_rec_is_dup_on_wellformed p norm storing d hw]
+  unfold parseCBR C15_structOf
+  rw [hf]
+  exact ⟨a, b, c⟩
 
 /-- **Duplicate loop-header names: the dropped columns.**  parse_loop (after the `loop_` keyword) at depth 0 with a container holding
     `c`, all-continue handlers, on the tokens of a header `names` and rectangular packets `pks` followed by a token `t` that ends the
